@@ -114,6 +114,32 @@ def occultedForward {m n : Nat} (F : Vector (Vec K n) m) (B : Vector (Vec K m) n
   let foc := matVec F E
   matVec B (Vector.ofFn fun k => foc[k] * mask[k])
 
+/-- `LyotCoronagraph.backward`: `wf = lyot_stop.backward(E)` (an `Apodizer` multiplies by the
+*conjugate*, `cj`); `wf_foc = F wf; wf_foc -= conj(m) * wf_foc; pup = B wf_foc; pup = wf - pup`.
+The stop acts first, the same pair `F`, `B` is used in the same order as in `forward`. -/
+def lyotBackward {m n : Nat} (cj : K → K) (F : Vector (Vec K n) m) (B : Vector (Vec K m) n) (mask : Vec K m)
+    (stop : Option (Vec K n)) (E : Vec K n) : Vec K n :=
+  let wf : Vec K n := match stop with
+    | none => E
+    | some s => Vector.ofFn fun i => E[i] * cj s[i]
+  let foc := matVec F wf
+  let foc' : Vec K m := Vector.ofFn fun k => foc[k] - foc[k] * cj mask[k]
+  let pup := matVec B foc'
+  Vector.ofFn fun i => wf[i] - pup[i]
+
+/-- `OccultedLyotCoronagraph.backward`: `B (conj(m) * (F E))`. -/
+def occultedBackward {m n : Nat} (cj : K → K) (F : Vector (Vec K n) m) (B : Vector (Vec K m) n) (mask : Vec K m)
+    (E : Vec K n) : Vec K n :=
+  let foc := matVec F E
+  matVec B (Vector.ofFn fun k => foc[k] * cj mask[k])
+
+/-- `Σ_i conj(u_i) v_i` (unweighted; pupil and Lyot plane share one regular grid). -/
+def cdot {n : Nat} (cj : K → K) (u v : Vec K n) : K := Fin.foldl n (fun acc i => acc + cj u[i] * v[i]) 0
+
+/-- Entry `(i, k)` of `B − Fᴴ` (all zero iff `backward` of the propagator is the adjoint of its `forward`). -/
+def propAdjointDefect {m n : Nat} (cj : K → K) (F : Vector (Vec K n) m) (B : Vector (Vec K m) n)
+    (i : Fin n) (k : Fin m) : K := B[i][k] - cj F[k][i]
+
 end Scalar
 
 /-! ## 5. The perfect coronagraph as the code literally computes it (round 4)
@@ -301,6 +327,9 @@ instance : Div CRat := ⟨fun a b =>
 instance : OfNat CRat 0 := ⟨⟨0, 0⟩⟩
 instance : OfNat CRat 1 := ⟨⟨1, 0⟩⟩
 instance : Pow CRat Nat := ⟨fun a k => (List.replicate k a).foldl (· * ·) 1⟩
+
+/-- complex conjugation -/
+def CRat.conj (a : CRat) : CRat := ⟨a.re, -a.im⟩
 
 /-! ## 4. Multi-scale phase-mask coronagraphs: level bookkeeping -/
 
